@@ -38,6 +38,17 @@ def check(ctx):
             mode = "unrelated"
             _, top, _ = pc.gen_pair(rng, "cascade")
         divisor = c1 if rng.random() < 0.7 else c2
+        if rng.random() < 0.3:
+            # feedback-like divisor: it reads a variable that is not a top-level input (so the quotient must
+            # produce it), assumes something about it, and guarantees something about an output the quotient reads
+            pt = gen.rand_point(rng, ["x", "q", "o", "y"])
+            divisor = {"a": pc._terms(rng, ["q"], 1, pt) + (pc._terms(rng, ["x"], 1, pt) if rng.random() < 0.5 else []),
+                       "g": pc.two_sided(rng, {"o": F(1), "x": gen.rand_coef(rng, "pow2"), "q": gen.rand_coef(rng, "pow2")}, pt),
+                       "i": ["x", "q"], "o": ["o"]}
+            top = {"a": pc._terms(rng, ["x"], rng.randint(0, 2), pt),
+                   "g": pc.two_sided(rng, {"y": F(1), "x": gen.rand_coef(rng, "dyadic")}, pt) + pc._terms(rng, ["x", "y"], rng.randint(0, 1), pt),
+                   "i": ["x"], "o": ["y"]}
+            mode = "feedback_divisor"
         if rng.random() < 0.3 and top["a"]:
             top = dict(top, a=top["a"][:-1])          # weaker top-level assumptions: may no longer imply the divisor's
         cand = list(dict.fromkeys(divisor["o"] + top["i"]))
@@ -51,8 +62,10 @@ def check(ctx):
             continue
         okind, v, calls = pp.observe(lambda: kt.quotient_tactics(kd, None if add_arg is None else [Var(x) for x in add_arg], simplify,
                                                                  None if order is None else list(order)))
+        safe = pc.exact_safe_pair(top, divisor, quotient=True)
+        hist["correspondence:" + ("compared" if safe else "oracle_only(inexact-prone)")] = hist.get("correspondence:" + ("compared" if safe else "oracle_only(inexact-prone)"), 0) + 1
         exprs.append(f"cc_quotient {cf.q(TAU)} {record.coq_table(calls)} {pc.cfields(top)} {pc.cfields(divisor)} "
-                     f"{cf.opt(add_arg, cf.svars)} {cf.boolean(simplify)} {cf.opt(order, cf.natlist)} {pc.exp_pair(okind, v)}")
+                     f"{cf.opt(add_arg, cf.svars)} {cf.boolean(simplify)} {cf.opt(order, cf.natlist)} {pc.exp_pair(okind, v)}" if safe else "true")
         pp.validate_lp(ctx, calls)
         payload = {"mode": mode, "dividend": cf.jsonable_contract(top), "divisor": cf.jsonable_contract(divisor),
                    "additional_inputs": add_arg, "simplify": simplify, "tactics_order": order}
